@@ -425,17 +425,21 @@ class NFANode(object):
     def __init__(self):
         self.transitions = defaultdict(set)
 
-    def add_transition(self, dest_node, symbol=None):
+    def add_transition(self, dest_node, symbol=None, bidirectional=True):
         """
         Add a transition rule from this node to the specified destination.
 
         If no symbols are specified, a (bidirectional) empty transition between
-        the two nodes will be added.
+        the two nodes will be added. If 'bidirectional' is False, the empty
+        transition is added in the forward direction only (as required for the
+        empty transitions of the Thompson construction in
+        :py:meth:`NFA.from_ast`).
         """
         if symbol is None:
             # Empty transitions should be bidirectional
             self.transitions[symbol].add(dest_node)
-            dest_node.transitions[symbol].add(self)
+            if bidirectional:
+                dest_node.transitions[symbol].add(self)
         else:
             self.transitions[symbol].add(dest_node)
 
@@ -502,7 +506,7 @@ class NFA(object):
             nfa_a = cls.from_ast(ast.a)
             nfa_b = cls.from_ast(ast.b)
 
-            nfa_a.final.add_transition(nfa_b.start)
+            nfa_a.final.add_transition(nfa_b.start, bidirectional=False)
 
             return cls(nfa_a.start, nfa_b.final)
         elif isinstance(ast, Symbol):
@@ -515,11 +519,11 @@ class NFA(object):
             nfa_a = cls.from_ast(ast.a)
             nfa_b = cls.from_ast(ast.b)
 
-            nfa.start.add_transition(nfa_a.start)
-            nfa.start.add_transition(nfa_b.start)
+            nfa.start.add_transition(nfa_a.start, bidirectional=False)
+            nfa.start.add_transition(nfa_b.start, bidirectional=False)
 
-            nfa_a.final.add_transition(nfa.final)
-            nfa_b.final.add_transition(nfa.final)
+            nfa_a.final.add_transition(nfa.final, bidirectional=False)
+            nfa_b.final.add_transition(nfa.final, bidirectional=False)
 
             return nfa
         elif isinstance(ast, Star):
@@ -527,11 +531,11 @@ class NFA(object):
 
             sub_nfa = cls.from_ast(ast.expr)
 
-            nfa.start.add_transition(nfa.final)
-            nfa.start.add_transition(sub_nfa.start)
+            nfa.start.add_transition(nfa.final, bidirectional=False)
+            nfa.start.add_transition(sub_nfa.start, bidirectional=False)
 
-            sub_nfa.final.add_transition(sub_nfa.start)
-            sub_nfa.final.add_transition(nfa.final)
+            sub_nfa.final.add_transition(sub_nfa.start, bidirectional=False)
+            sub_nfa.final.add_transition(nfa.final, bidirectional=False)
 
             return nfa
 
